@@ -158,8 +158,15 @@ package saml2
 //@   safety [C09]
 //@   frame [C17]
 //@   assigns nothing
-//@   ensures [C03, C05, C08] iff: err == nil <==> ProfileOK(sp, response)
-//@   ensures [C03, C05] errkind: err != nil ==>
+//@   ensures [C03] sound: err == nil ==> ProfileOK(sp, response)
+//@   ensures [C08] complete: ProfileOK(sp, response) ==> err == nil
+//@   ensures [C05] expiry: err == nil ==> forall k int :: 0 <= k && k < len(response.Assertions) ==>
+//@        SCD(response.Assertions[k]) != nil && NotExpired(sp, response.Assertions[k])
+//@   ensures [C05] expired.kind: IsInvalidR(err, NotOnOrAfterAttr, ReasonExpired) ==>
+//@        exists k int :: 0 <= k && k < len(response.Assertions) && response.Assertions[k].Subject != nil
+//@          && response.Assertions[k].Subject.SubjectConfirmation != nil && SCD(response.Assertions[k]) != nil
+//@          && parseOK(SCD(response.Assertions[k]).NotOnOrAfter) && now(sp.Clock) >= instantOf(SCD(response.Assertions[k]).NotOnOrAfter)
+//@   ensures [C03] errkind: err != nil ==>
 //@        AttrsErr(response.Destination, response.Version, sp.AssertionConsumerServiceURL, err)
 //@     || (len(response.Assertions) == 0 && err == ErrMissingAssertion)
 //@     || IssuerErr(sp, response.Issuer, err)
